@@ -18,6 +18,8 @@ import Verif.Lemmas.MptRound
 import Verif.Lemmas.MergeRound
 import Verif.Lemmas.OrderChanges
 import Verif.Lemmas.TrieRun
+import Verif.Lemmas.NotStuck
+import Verif.Lemmas.Interp
 import Verif.Lemmas.RefKeyInj
 namespace Verif.Props.C04
 open Verif.Mpt Verif.MptStore Verif.MptStore.Collector
@@ -188,19 +190,30 @@ example : KeyHyps (fun x => (0 : UInt8) :: x) (fun r => r = ⟨[], .leaf 1 [3] [
     the block trie replays the child's pending changes in the order `orderChanges` computes, then its deletes
     (`mergeChanges`), and saves.  The event discipline is PROVED for all of it (own operations: Lemmas/EventDisc;
     the replay: Lemmas/Collector2, MergeCalls).  Remaining hypotheses: canonical resolvable start tree, key injectivity
-    on the references involved, and that `orderChanges` does not get stuck on the child's changes (`orderStuck = false`,
-    an executable test: no cycle of replacements; then its output is a permutation in which no change replaces a key
-    after a change (re)created it, `orderChanges_good`; the model driver evaluates the test at every merge). -/
+    on the references involved.  (That `orderChanges` does not get stuck on the child's changes is proved,
+    `trieRun_not_stuck`; then its output is a permutation in which no change replaces a key after a change (re)created
+    it, `orderChanges_good`.) -/
 theorem C04_complete_one_merge (H : Bytes → Bytes) (P0 : PStore) (t0 t1 t2 : Node) (b0 c0 : Trie) (v : Nat)
     (esP esC : List Event)
     (hfresh : b0.cc.changes = [] ∧ b0.cc.deletes = []) (hfreshC : c0.cc.changes = [] ∧ c0.cc.deletes = [])
     (h0 : Resolves H (Map.get P0.nodes) t0 []) (hw : WF t0)
     (hP : RoundEvents v t0 esP t1) (hC : RoundEvents v t1 esC t2)
-    (hstuck : orderStuck H (c0.applyEvents H esC).cc.getChanges = false)
     (hU : KeyInjOn H (fun r => r ∈ refs t0 [] ∨ r ∈ eventRefs esP ∨ r ∈ eventRefs esC)) :
     Resolves H (Map.get (P0.applyAll (saveStream H (b0.applyEvents H
       (esP ++ mergeEvents (orderChanges H (c0.applyEvents H esC).cc.getChanges) (c0.applyEvents H esC).cc.getDeletes)))).nodes)
       t2 [] := by
+  obtain ⟨_, hcrP0, hw10⟩ := round_ok hP hw (fun r => r ∈ refs t0 []) (fun _ h => h)
+  have hstuck : orderStuck H (c0.applyEvents H esC).cc.getChanges = false := by
+    have hrunC : TrieRun H (fun r => r ∈ refs t0 [] ∨ r ∈ eventRefs esP ∨ r ∈ eventRefs esC) (fun _ => True) t1 (esC ++ []) t2 :=
+      TrieRun.own v t1 t2 t2 esC [] trivial hC (fun r hr => Or.inr (Or.inr hr)) (TrieRun.nil _)
+    have hUt1 : ∀ r ∈ refs t1 [], r ∈ refs t0 [] ∨ r ∈ eventRefs esP ∨ r ∈ eventRefs esC := by
+      intro r hr
+      rcases liveRunR_sub esP _ r (hcrP0 r hr) with h | h
+      · exact Or.inl h
+      · exact Or.inr (Or.inl h)
+    have := trieRun_not_stuck H _ hU hrunC hw10 hUt1 c0 hfreshC (c0.applyEvents H esC).cc.getChanges
+      (by simp)
+    exact this
   have hgood := orderChanges_good H _ hstuck
   obtain ⟨hd, hc, hsubE⟩ := one_merge_discipline H hP hC hw c0 hfreshC _ (orderChanges_perm H _) hgood hU
   obtain ⟨_, hcrP, hw1⟩ := round_ok hP hw (fun r => r ∈ refs t0 []) (fun _ h => h)
@@ -226,11 +239,11 @@ theorem C04_complete_one_merge (H : Bytes → Bytes) (P0 : PStore) (t0 t1 t2 : N
     current tree with a fresh collector and its pending changes are replayed in the order `orderChanges` computes, which
     must not be stuck).  No discipline hypothesis: it is proved for every such run (`trieRun_discipline`).  Remaining:
     canonical resolvable start tree, key injectivity on the references `U` of the run. -/
-theorem C04_complete_run (H : Bytes → Bytes) (U : Ref → Prop) (P0 : PStore) (t0 t : Node) (b0 : Trie) (v : Nat)
+theorem C04_complete_run (H : Bytes → Bytes) (U : Ref → Prop) (Vok : Nat → Prop) (P0 : PStore) (t0 t : Node) (b0 : Trie)
     (es : List Event)
     (hfresh : b0.cc.changes = [] ∧ b0.cc.deletes = [])
     (h0 : Resolves H (Map.get P0.nodes) t0 []) (hw : WF t0) (hUt : ∀ r ∈ refs t0 [], U r)
-    (hrun : TrieRun H U v t0 es t) (hU : KeyInjOn H U) :
+    (hrun : TrieRun H U Vok t0 es t) (hU : KeyInjOn H U) :
     Resolves H (Map.get (P0.applyAll (saveStream H (b0.applyEvents H es))).nodes) t [] := by
   obtain ⟨hd, hc, _, hE, hUt'⟩ := trieRun_discipline H U hU hrun hw hUt (fun x => x ∈ (refs t0 []).map (Ref.key H))
     (fun r hr => List.mem_map.mpr ⟨r, hr, rfl⟩)
@@ -245,21 +258,59 @@ theorem C04_complete_run (H : Bytes → Bytes) (U : Ref → Prop) (P0 : PStore) 
     · exact hE r hr
   rw [hU a b (hin a ha) (hin b hb) hk]
 
+/-- **Saved state is complete — every history of the interpreter.**  `Forest.step` (Verif.Model.MptInterp) is the
+    interpreter of the trie-building ops of the store-layer op language (child / ins / del / merge [raw] [keep] /
+    discard / ver), through which the model driver replays every generated history next to the Go code.  For ANY op
+    list executed from a freshly opened block trie on a canonical, resolvable tree, saving the block trie makes its
+    tree resolve in the persistent store (`interp_is_trieRun`: every reachable trie has a `TrieRun` history).
+    Side conditions (`RunIn`): the references of the executed operations stay inside `U`, on which the key is injective;
+    versions satisfy `Vok` (any predicate); the hash is never empty.  (That no replayed ordering gets stuck is proved:
+    `trieRun_not_stuck`.) -/
+theorem C04_complete_interp (H : Bytes → Bytes) (ord : List (Change Ref) → List (Change Ref)) (hord : ∀ l, (ord l).Perm l)
+    (U : Ref → Prop) (Vok : Nat → Prop) (hU : KeyInjOn H U) (hne : ∀ x, H x ≠ []) (P0 : PStore) (t0 : Node) (v : Nat)
+    (hw : WF t0) (hu : ∀ r ∈ refs t0 [], U r) (h0 : Resolves H (Map.get P0.nodes) t0 []) (ops : List TOp)
+    (hin : RunIn H ord U Vok { tries := [(0, 0, Trie.open (root H t0) t0 v)] } ops) (pid : Nat) (b : Trie)
+    (hb : (Forest.run H ord { tries := [(0, 0, Trie.open (root H t0) t0 v)] } ops).find 0 = some (pid, b)) :
+    Resolves H (Map.get (P0.applyAll (saveStream H b)).nodes) b.tree [] := by
+  obtain ⟨es, v0, h1, _, hrun, _⟩ := block_is_trieRun H ord hord U Vok hU hne t0 v hw hu ops hin pid b hb
+  have := C04_complete_run H U Vok P0 t0 b.tree (Trie.open (root H t0) t0 v0) es ⟨rfl, rfl⟩ h0 hw hu hrun hU
+  rw [save_nodes] at this ⊢
+  rw [h1]; exact this
+
+/-- an injective hash that never returns the empty string, for the non-vacuity example below -/
+def exH : Bytes → Bytes := fun x => 0 :: x
+
+/-- non-vacuity of `C04_complete_interp`: open a child, insert a key, merge it, on the empty block trie -/
+example : ∃ pid b, (Forest.run exH (fun l => l) { tries := [(0, 0, Trie.open (root exH .empty) .empty 1)] }
+      [.child 1 0, .ins 1 [3] [65], .merge 1 false]).find 0 = some (pid, b) ∧
+    Resolves exH (Map.get (({} : PStore).applyAll (saveStream exH b)).nodes) b.tree [] := by
+  refine ⟨_, _, rfl, ?_⟩
+  apply C04_complete_interp exH (fun l => l) (fun l => List.Perm.refl l)
+    (fun r => r = ⟨[], .leaf 1 [3] [65]⟩) (fun _ => True) _ _ {} .empty 1 (Or.inl rfl) (by intro r h; simp [refs] at h)
+    (by intro r h; simp [refs] at h) [.child 1 0, .ins 1 [3] [65], .merge 1 false] _ _ _ rfl
+  · intro a b ha hb _; rw [ha, hb]
+  · intro x; simp [exH]
+  · refine ⟨trivial, ?_, by simp [StepIn], trivial⟩
+    intro pid t hf
+    simp [Forest.step, Forest.find, Trie.open] at hf
+    obtain ⟨_, rfl⟩ := hf
+    simp [insertE, eventRefs]
+
 /-- non-vacuity of `C04_complete_run` (and `TrieRun`): the block trie merges one transaction that inserted a key -/
-example : ∃ es, TrieRun id (fun r => r = ⟨[], .leaf 1 [3] [65]⟩) 1 .empty es (.leaf 1 [3] [65]) ∧
+example : ∃ es, TrieRun id (fun r => r = ⟨[], .leaf 1 [3] [65]⟩) (fun v => v = 1) .empty es (.leaf 1 [3] [65]) ∧
     Resolves id (Map.get (({} : PStore).applyAll (saveStream id ((Trie.open [] .empty 1).applyEvents id es))).nodes)
       (.leaf 1 [3] [65]) [] := by
   have hC : RoundEvents 1 .empty ((insertE 1 [65] .empty [] [3]).2 ++ []) (.leaf 1 [3] [65]) := by
     apply RoundEvents.ins _ _ _ _ _ (by simp)
     have h1 : (insertE 1 [65] .empty [] [3]).1 = .leaf 1 [3] [65] := by simp [insertE]
     rw [h1]; exact RoundEvents.nil _
-  have hchild : TrieRun id (fun r => r = ⟨[], .leaf 1 [3] [65]⟩) 1 .empty
+  have hchild : TrieRun id (fun r => r = ⟨[], .leaf 1 [3] [65]⟩) (fun v => v = 1) .empty
       (((insertE 1 [65] .empty [] [3]).2 ++ []) ++ []) (.leaf 1 [3] [65]) :=
-    TrieRun.own _ _ _ _ _ hC (by intro r hr; simpa [insertE, eventRefs] using hr) (TrieRun.nil _)
-  have hrun := TrieRun.merge (H := id) (U := fun r => r = ⟨[], .leaf 1 [3] [65]⟩) (v := 1) .empty (.leaf 1 [3] [65])
-    (.leaf 1 [3] [65]) (Trie.open [] .empty 1) _ [] ⟨rfl, rfl⟩ hchild (by decide) (TrieRun.nil _)
+    TrieRun.own 1 _ _ _ _ _ rfl hC (by intro r hr; simpa [insertE, eventRefs] using hr) (TrieRun.nil _)
+  have hrun := TrieRun.merge (H := id) (U := fun r => r = ⟨[], .leaf 1 [3] [65]⟩) (Vok := fun v => v = 1) .empty (.leaf 1 [3] [65])
+    (.leaf 1 [3] [65]) (Trie.open [] .empty 1) _ [] _ ⟨rfl, rfl⟩ hchild (List.Perm.refl _) (by decide) (TrieRun.nil _)
   refine ⟨_, hrun, ?_⟩
-  apply C04_complete_run id _ {} .empty _ (Trie.open [] .empty 1) 1 _ ⟨rfl, rfl⟩ (by intro r h; simp [refs] at h)
+  apply C04_complete_run id _ _ {} .empty _ (Trie.open [] .empty 1) _ ⟨rfl, rfl⟩ (by intro r h; simp [refs] at h)
     (Or.inl rfl) (by intro r h; simp [refs] at h) hrun
   intro a b ha hb _
   rw [ha, hb]
@@ -275,7 +326,7 @@ example : Resolves id (Map.get (({} : PStore).applyAll (saveStream id ((Trie.ope
     rw [h1]; exact RoundEvents.nil _
   have := C04_complete_one_merge id {} .empty .empty (.leaf 1 [3] [65]) (Trie.open [] .empty 1) (Trie.open [] .empty 1) 1
     [] ((insertE 1 [65] .empty [] [3]).2 ++ []) ⟨rfl, rfl⟩ ⟨rfl, rfl⟩ (by intro r h; simp [refs] at h) (Or.inl rfl)
-    (RoundEvents.nil _) hC (by decide) (by
+    (RoundEvents.nil _) hC (by
       intro a b ha hb _
       simp [refs, insertE, eventRefs] at ha hb
       rw [ha, hb])
